@@ -534,6 +534,11 @@ void Archiver::ReadDataInternal(void* data, size_t size)
 {
     CheckRead();
     readStream->read(static_cast<char*>(data), size);
+
+    if (readStream->fail()) {
+        // a short read leaves the rest of the destination untouched: report it now, not on the next call
+        throw ArchiveErrors::ReadStreamFail();
+    }
 }
 
 bool Archiver::Loading() const
